@@ -246,13 +246,19 @@ def nontrivial(ev):
     return not (r["v"] in ([], False, "") or (r["t"] == "num" and r["v"]["k"] == "nan"))
 
 
+def mc_laws(res, tier, wd):
+    """model-check the laws of the definition over a bounded document family"""
+    fam = list(xdm.enum_docs(5 if tier == "quick" else 6, extras=(xdm.C("c"),)))
+    dp = os.path.join(wd, "mc-docs.ndjson")
+    vlib.write_ndjson(dp, [xdm.flatten(t) for t in fam])
+    r = vlib.tlc_mc(os.path.join(ROOT, "spec/mc/MC_XPath.tla"), name="xpathmc", env={"DOCS": dp}, workers=1, timeout=3000)
+    res.add_mc(r, "MC_XPath (laws of XDM/XNum/XPathSem over %d documents)" % len(fam))
+
+
 def run(res, tier, seed):
     rng = random.Random(seed)
     wd = vlib.workdir("c02-%d" % os.getpid())
-    mc = os.path.join(ROOT, "spec/mc/MC_XPath.tla")
-    if os.path.exists(mc):
-        r = vlib.tlc_mc(mc, name="c02mc", timeout=3000)
-        res.add_mc(r, "MC_XPath")
+    mc_laws(res, tier, wd)
     docs, flats, cases = build_cases(rng, tier)
     events, crashes = run_cases(docs, flats, cases, wd)
     for c, err, rc in crashes:
